@@ -120,7 +120,11 @@ type Node struct {
 	// marks the connection as offended, too. Default false: only the first delivery of an offending header is an offence
 	// the service is expected to act upon (it skips headers it already has - see the open finding of C07).
 	RedeliveryCounts bool
-	offDelivered     map[chainhash.Hash]bool
+	// HangUpAfterOffence: right after writing a reply that carries an offending header the node closes all its
+	// connections (the service meets the offending header when its sender is gone already); it keeps accepting new ones
+	// and behaves like an ordinary node whose chain ends below the offending header.
+	HangUpAfterOffence bool
+	offDelivered       map[chainhash.Hash]bool
 	redeliveries     int
 	// Insert, if set, may replace the headers of a reply (fault injection: forbidden / contradicting headers).
 	Insert func(reply []*wire.BlockHeader, connID int, nthGetHeaders int) ([]*wire.BlockHeader, bool)
@@ -139,6 +143,7 @@ type conn struct {
 	sentVersion bool
 	afterOffend int // getheaders received after an offending reply was sent
 	offended    bool
+	hungUp      bool
 	offendedAt  time.Time
 	shakenAt    time.Time // handshake completed
 	closedAt    time.Time
@@ -435,6 +440,23 @@ func (n *Node) onGetHeaders(cn *conn, m *wire.MsgGetHeaders) bool {
 	mh := &wire.MsgHeaders{Headers: reply}
 	if err := n.write(cn, mh); err != nil {
 		n.closeConn(cn, false)
+		return false
+	}
+	n.mu.Lock()
+	hangUp := n.HangUpAfterOffence && cn.offended && !cn.hungUp
+	cn.hungUp = cn.hungUp || hangUp
+	n.mu.Unlock()
+	if hangUp {
+		// from now on the node is an ordinary one: its chain ends below the first offending header
+		n.mu.Lock()
+		for i, b := range n.chain {
+			if n.Offending[b.Hash] {
+				n.chain = n.chain[:i]
+				break
+			}
+		}
+		n.mu.Unlock()
+		n.DropAll()
 		return false
 	}
 	n.mu.Lock()
